@@ -313,3 +313,51 @@ def prove_plain_write_skeleton(ctx):
     from pycaption.microdvd import MicroDVDWriter
     ctx.prove("srt.SRTWriter.write+microdvd.MicroDVDWriter.write", plain_write_skeleton,
               functions=[SRTWriter.write, MicroDVDWriter.write], crosscheck=False)
+
+
+# ------------------------------------------------------------------------------------ SinglePositioningDFXPWriter._create_single_positioning_caption_set
+
+def single_positioning_set(c):
+    """SinglePositioningDFXPWriter._create_single_positioning_caption_set (C12, C14, C09): P[n] over the caption-set shapes
+    of this module, with layouts of their own at every level and a text-align in one style.  `merge_concurrent_captions`
+    is used by contract (C19; here the identity on a logged copy), `deepcopy` is a logged real copy.
+
+      * the caller's set is copied first and everything happens on the copy: the set handed in keeps every layout and style
+        it had;
+      * in the result EVERY level carries the one positioning asked for - the set, every language, every caption of every
+        language, every node - and no style keeps a `text-align` that could override it; languages, their order and
+        their captions are those of the set."""
+    import copy
+    from pycaption.dfxp.extras import SinglePositioningDFXPWriter as SP
+    from pycaption.geometry import Layout, Point, Size, UnitEnum
+    shape = c.pick("caption_set", list(SHAPES))
+    counts = SHAPES[shape]
+    mk = lambda k: Layout(origin=Point(Size(k, UnitEnum.PERCENT), Size(k, UnitEnum.PERCENT)))
+    target = mk(77)
+    caps = {l: CaptionList([Caption(10 ** 6 * (k + 1), 10 ** 6 * (k + 2),
+                                    [CaptionNode.create_style(True, {"italics": True}, layout_info=mk(3)), CaptionNode.create_text(f"{l} {k}", layout_info=mk(4)),
+                                     CaptionNode.create_break(layout_info=mk(5)), CaptionNode.create_style(False, {"italics": True})], layout_info=mk(2))
+                            for k in range(n)], layout_info=mk(1)) for l, n in counts.items()}
+    styles = {"s": {"text-align": "right", "color": "red"}, "t": {"color": "blue"}}
+    cs = CaptionSet(dict(caps), styles={k: dict(v) for k, v in styles.items()}, layout_info=mk(6))
+    log = []
+    real_deepcopy = copy.deepcopy
+    c.interp.overrides[copy.deepcopy] = lambda x, *a: (log.append(("copy", x is cs)), real_deepcopy(x))[1]
+    c.interp.contracts["pycaption.base:merge_concurrent_captions"] = lambda interp, fn, a, kw: (log.append(("merge", N(fn, a, kw)["caption_set"] is not cs)), N(fn, a, kw)["caption_set"])[1]
+    r = c.call(SP._create_single_positioning_caption_set, cs, target, compare=False)
+    c.ensure("copied_first_and_merged_on_the_copy", log[:2] == [("copy", True), ("merge", True)] and r is not cs)
+    c.ensure("the_set_handed_in_keeps_its_layouts_and_styles",
+             cs.layout_info == mk(6) and all(cs.get_layout_info(l) == mk(1) for l, n in counts.items() if n) and dict(cs.get_styles()) == styles
+             and all(cap.layout_info == mk(2) and [n_.layout_info for n_ in cap.nodes] == [mk(3), mk(4), mk(5), None] for l in counts for cap in cs.get_captions(l)))
+    c.ensure("same_languages_in_order_with_their_captions", r.get_languages() == list(counts)
+             and all([x.get_text() for x in r.get_captions(l)] == [f"{l} {k}" for k in range(n)] for l, n in counts.items()))
+    c.ensure("every_level_carries_the_one_positioning",
+             r.layout_info == target and all(r.get_layout_info(l) == target for l, n in counts.items() if n)      # (a language without captions shows no layout: `get_layout_info` answers None for an empty list)
+             and all(cap.layout_info == target and all(n_.layout_info == target for n_ in cap.nodes) for l in counts for cap in r.get_captions(l)))
+    c.ensure("no_style_keeps_a_text_align", all("text-align" not in st for _, st in r.get_styles()) and dict(r.get_styles()) == {"s": {"color": "red"}, "t": {"color": "blue"}})
+
+
+def prove_single_positioning_set(ctx):
+    from pycaption.dfxp.extras import SinglePositioningDFXPWriter as SP
+    ctx.prove("dfxp.SinglePositioningDFXPWriter._create_single_positioning_caption_set", single_positioning_set,
+              functions=[SP._create_single_positioning_caption_set], crosscheck=False)
